@@ -559,6 +559,8 @@ class SortedConfigParser(ConfigParser):
             ConfigParser.__init__(self, *args, **kwargs)
         else:
             kwargs["dict_type"] = SortedDict
+            # values are data, not templates: '%' must be written and read verbatim
+            kwargs.setdefault("interpolation", None)
             super(SortedConfigParser, self).__init__(*args, **kwargs)
         self.seen = set()
 
